@@ -10,6 +10,7 @@ import (
 	"regexp"
 	"regexp/syntax"
 	"strings"
+	"unicode/utf8"
 
 	"github.com/issue9/mux/v9/types"
 )
@@ -189,9 +190,34 @@ func (seg *Segment) Similarity(s1 *Segment) int {
 		return -1
 	case s1.Type != seg.Type: // 完全不同的节点
 		return 0
+	case seg.Type == Regexp:
+		// 正则表达式之后的字符串会作为表达式的一部分参与编译，
+		// 如果从多字节字符的中间拆分，得到的表达式将不再是合法的 UTF-8 字符串，无法编译。
+		return runeBoundary(s1.Value, seg.Value, longestPrefix(s1.Value, seg.Value))
 	default:
 		return longestPrefix(s1.Value, seg.Value)
 	}
+}
+
+// 将 l 调整为不在多字节字符中间的位置
+//
+// s1[:l] 与 s2[:l] 相同，l 为 [longestPrefix] 的返回值。
+// 如果调整之后参数之后不再有普通字符，则与 [longestPrefix] 相同，返回参数的起始位置。
+func runeBoundary(s1, s2 string, l int) int {
+	if len(s2) > len(s1) {
+		s1 = s2
+	}
+	if l <= 0 || l >= len(s1) || utf8.RuneStart(s1[l]) {
+		return l
+	}
+
+	for l > 0 && !utf8.RuneStart(s1[l]) {
+		l--
+	}
+	if l > 0 && s1[l-1] == endByte { // 命名参数之后必须要有一个或以上的普通字符
+		return max(0, strings.LastIndexByte(s1[:l], startByte))
+	}
+	return l
 }
 
 // Split 从 pos 位置拆分为两个
